@@ -42,8 +42,12 @@ def generate(rng, index, tier):
         elif addrs and r < 0.4:
             addrs.append(rng.pick(addrs) + rng.pick([1, 2, 0x1000]))   # adjacent
         else:
-            addrs.append(base + rng.randrange(0, 64 if nimg < 100 else 1 << 16) * 0x1000)
+            addrs.append(base + rng.randrange(0, 64 if nimg < 100 else 1 << 16) * 0x1000 if not rng.chance(0.06) else rng.pick([0, 1, (1 << 63) + 0x1000, (1 << 64) - 0x1000]))
+    addrs = [a & 0xffffffffffffffff for a in addrs]          # a load address is one 64-bit word of the record
     images = [{'addr': a, 'uuid': rng.randbytes(16).hex()} for a in addrs]
+    for im in images:
+        if rng.chance(0.12):
+            im['uuid'] = rng.pick(images)['uuid']       # the same identity at another address (a shared cache mapped twice)
     nann = rng.randint(1, 2)
     threads = []
     ann_ops = [[] for _ in range(nann)]
@@ -76,6 +80,8 @@ def generate(rng, index, tier):
             rows = [[rng.pick(cand) & 0xffffffffffffffff for _ in range(4)] for _ in range(nwords_rows)]
             nwords = 4 * nwords_rows
             nframes = rng.pick([nwords, nwords, max(0, nwords - rng.randint(1, 3)), nwords + rng.randint(1, 5), 0])
+            if rng.chance(0.05):
+                nframes = rng.pick([(1 << 32) + rng.randrange(0, 4), 1 << 32, 1 << 63, (1 << 64) - 1, (1 << 31) + 1])
             flags = rng.pick([USTACK, USTACK, USTACK | THINFO, USTACK | 4, THINFO, 0, USTACK | 0x100])
             uhdr = (rng.randrange(0, 512), nframes) if rng.chance(0.88) else None
             extra = []
@@ -180,6 +186,19 @@ def execute(scn):
         tparser = tool.tp_mod.TracesParser(table, {}, {})
         cparser = tool.cs_mod.CallstacksParser([], [])
         got, exc = common.drain(lambda: cparser.feed_generator(tparser.feed_generator(worlds.kevents_of(stream))))
+    if scn.get('via_file') and exc is None:
+        # the rendered view of the same request names the same frames: ' ' * i + 'uuid:0x<offset>' or '0x<address>'
+        fp = tool.pk_mod.PyKdebugParser()
+        fp.show_timestamp = fp.show_process = fp.show_tid = False
+        lines, fexc = common.drain(lambda: fp.formatted_callstacks(SimReader(data), table))
+        if fexc is None:
+            want_lines = ['\n'.join([''] + [(' ' * i) + ('%s:0x%016x' % (f.uuid, f.offset) if f.uuid is not None else '0x%016x' % f.address)
+                                              for i, f in enumerate(c.frames)]) for c in got]
+            if lines != want_lines:
+                j = next((j for j in range(max(len(lines), len(want_lines))) if j >= len(lines) or j >= len(want_lines) or lines[j] != want_lines[j]), 0)
+                viols.append({'tag': 'formatted-callstack-differs', 'sig': 'count' if len(lines) != len(want_lines) else 'frames',
+                              'detail': 'callstack %d: formatted_callstacks prints %r, the callstack object renders as %r' % (
+                                  j, lines[j] if j < len(lines) else None, want_lines[j] if j < len(want_lines) else None)})
     if exc is not None:
         viols.append({'tag': 'raised', 'sig': common.exc_sig(exc), 'detail': repr(exc)})
         return {'violations': viols, 'digest': digest_of(scn, ['raised']), 'stats': stats, 'nontrivial': False, 'shape': 'raised'}
